@@ -148,6 +148,9 @@ func init() {
 
 func TestC01(t *testing.T) { runRegistered(t, "C01") }
 
+// FuzzC01: coverage guidance may find tie layouts the hand-made labels miss (thorough tier, wall-clock bounded).
+func FuzzC01(f *testing.F) { fuzzRegistered(f, "C01") }
+
 var _ = fmt.Sprint
 var _ = sort.Strings
 var _ = strings.Join
